@@ -13,28 +13,161 @@ open Spydr.Verilog.Text (fixName)
 
 /-! ### module parameters in the header: `#( parameter k = v , parameter k2 = v2 )` -/
 
+/-- a parameter key with a range, as the reader assembles it: `[l:r] name` -/
+def keyRanged (l r : Int) (nm : String) : String := s!"[{l}:{r}] " ++ nm
+
+def digitsNat : List Char → Option Nat
+  | [] => none
+  | cs => if cs.all Char.isDigit then some (cs.foldl (fun n c => 10 * n + (c.toNat - '0'.toNat)) 0) else none
+
+def parseIntL : List Char → Option Int
+  | '-' :: cs => (digitsNat cs).map (fun n => -(n : Int))
+  | cs => (digitsNat cs).map (fun n => (n : Int))
+
+/-- is the key of the form `[l:r] name`?  (the check at the end makes the answer right whatever the splitting does; written
+    with structural functions so that the kernel can evaluate it) -/
+def splitKey (k : String) : Option (Int × Int × String) :=
+  match k.toList with
+  | '[' :: cs =>
+    match cs.span (· != ':') with
+    | (a, ':' :: r2) =>
+      match r2.span (· != ']') with
+      | (b, ']' :: ' ' :: nmcs) =>
+        match parseIntL a, parseIntL b with
+        | some l, some r => if keyRanged l r (String.ofList nmcs) == k then some (l, r, String.ofList nmcs) else none
+        | _, _ => none
+      | _ => none
+    | _ => none
+  | _ => none
+
+theorem splitKey_sound (k : String) (l r : Int) (nm : String) (h : splitKey k = some (l, r, nm)) : k = keyRanged l r nm := by
+  unfold splitKey at h
+  split at h
+  · split at h
+    · split at h
+      · split at h
+        · split at h
+          · rename_i hc
+            simp only [Option.some.injEq, Prod.mk.injEq] at h
+            obtain ⟨e1, e2, e3⟩ := h
+            subst e1 e2 e3
+            exact (beq_iff_eq.mp hc).symm
+          · cases h
+        · cases h
+      · cases h
+    · cases h
+  · cases h
+
+/-- the tokens of a parameter key -/
+def mpKeyToks (k : String) : List String :=
+  match splitKey k with
+  | some (l, r, nm) => ["[", Text.showInt l, ":", Text.showInt r, "]", nm]
+  | none => [k]
+
 /-- the tokens after the first `parameter` -/
 def mpToks : Params → List String
   | [] => []
-  | [kv] => [kv.1, "=", kv.2]
-  | kv :: rest => kv.1 :: "=" :: kv.2 :: "," :: "parameter" :: mpToks rest
+  | [kv] => mpKeyToks kv.1 ++ ["=", kv.2]
+  | kv :: rest => mpKeyToks kv.1 ++ "=" :: kv.2 :: "," :: "parameter" :: mpToks rest
 
 def mparamToks (ps : Params) : List String :=
   if ps.isEmpty then [] else "#" :: "(" :: "parameter" :: (mpToks ps ++ [")"])
 
-/-- the keys are plain names (not `integer`, which the reader treats as a type), pairwise distinct -/
-def mparamsOK (ps : Params) : Bool :=
-  ps.all (fun kv => nameTokB kv.1 kv.1 && kv.1 != "integer") && decide ((ps.map (·.1)).Nodup)
+/-- a key is a plain name (not `integer`, which the reader treats as a type) or `[l:r] name` -/
+def mkeyOK (k : String) : Bool :=
+  match splitKey k with
+  | some (l, r, nm) => intTokB l && intTokB r && nameTokB nm nm
+  | none => nameTokB k k && k != "integer"
+
+def mparamsOK (ps : Params) : Bool := ps.all (fun kv => mkeyOK kv.1) && decide ((ps.map (·.1)).Nodup)
+
+theorem mpKeyToks_len (k : String) : 1 ≤ (mpKeyToks k).length := by
+  unfold mpKeyToks; split <;> simp
 
 theorem mpToks_len : ∀ (a : Params), a.length ≤ (mpToks a).length
   | [] => by simp [mpToks]
-  | [kv] => by simp [mpToks]
+  | [kv] => by have := mpKeyToks_len kv.1; simp only [mpToks, List.length_append, List.length_cons, List.length_nil]; omega
   | kv :: kv2 :: t => by
     have h2 := mpToks_len (kv2 :: t)
-    simp only [mpToks, List.length_cons] at h2 ⊢; omega
+    have := mpKeyToks_len kv.1
+    simp only [mpToks, List.length_cons, List.length_append] at h2 ⊢; omega
+
+theorem keyRanged_ne_integer (l r : Int) (nm : String) : (keyRanged l r nm == "integer") = false := by
+  have h : (keyRanged l r nm).toList.head? = some '[' := by
+    unfold keyRanged
+    simp [toString, String.toList_append]
+  cases hb : keyRanged l r nm == "integer" with
+  | false => rfl
+  | true =>
+    rw [beq_iff_eq.mp hb] at h
+    exact absurd h (by decide)
+
+/-- one parameter, the last of the list -/
+theorem hp_last (k v : String) (acc : Params) (f : Nat) (rest : Toks) (hk : mkeyOK k = true)
+    (hany : acc.any (fun x => x.1 == k) = false) :
+    headerParamsGo (f + 1) (mpKeyToks k ++ "=" :: v :: ")" :: rest) acc = .ok (acc ++ [(k, v)], rest) := by
+  unfold mkeyOK at hk
+  unfold mpKeyToks
+  cases hs : splitKey k with
+  | none =>
+    simp only [hs, Bool.and_eq_true, bne_iff_ne, ne_eq] at hk
+    have hnt := nameTok_sound _ _ hk.1
+    have hbr : (k == "[") = false := hnt.res "[" (by decide)
+    have hkey : "" ++ k = k := String.empty_append
+    have hint' : (k == "integer") = false := by simpa using hk.2
+    have hint : (("" ++ k) == "integer") = false := by rw [hkey]; exact hint'
+    simp only [List.cons_append, List.nil_append]
+    unfold headerParamsGo
+    simp [expect, next, peek, bind, Except.bind, hnt.valid, hnt.strip, hbr, hint, hint', hkey, hany, pure, Except.pure]
+  | some x =>
+    obtain ⟨l, r, nm⟩ := x
+    simp only [hs, Bool.and_eq_true] at hk
+    have hk' := splitKey_sound k l r nm hs
+    have hnt := nameTok_sound _ _ hk.2
+    have hb := brackets_part l r (nm :: "=" :: v :: ")" :: rest) hk.1.1 hk.1.2
+    have hkey : s!"[{l}:{r}] " ++ nm = k := hk'.symm
+    have hint : (k == "integer") = false := by rw [hk']; exact keyRanged_ne_integer l r nm
+    simp only [List.cons_append, List.nil_append]
+    unfold headerParamsGo
+    simp only [peek, bind, Except.bind, beq_self_eq_true, if_true, hb, pure, Except.pure, next, hnt.valid, Bool.not_true,
+      Bool.false_eq_true, if_false, hnt.strip, hkey, hint, hany]
+    simp
+
+/-- one parameter followed by another -/
+theorem hp_more (k v : String) (acc : Params) (f : Nat) (more : Toks) (hk : mkeyOK k = true)
+    (hany : acc.any (fun x => x.1 == k) = false) :
+    headerParamsGo (f + 1) (mpKeyToks k ++ "=" :: v :: "," :: "parameter" :: more) acc = headerParamsGo f more (acc ++ [(k, v)]) := by
+  unfold mkeyOK at hk
+  unfold mpKeyToks
+  have e1 : ("," == ")") = false := by decide
+  have e2 : ("=" != "=") = false := by decide
+  cases hs : splitKey k with
+  | none =>
+    simp only [hs, Bool.and_eq_true, bne_iff_ne, ne_eq] at hk
+    have hnt := nameTok_sound _ _ hk.1
+    have hbr : (k == "[") = false := hnt.res "[" (by decide)
+    have hkey : "" ++ k = k := String.empty_append
+    have hint' : (k == "integer") = false := by simpa using hk.2
+    have hint : (("" ++ k) == "integer") = false := by rw [hkey]; exact hint'
+    simp only [List.cons_append, List.nil_append]
+    conv => lhs; unfold headerParamsGo
+    simp only [expect, next, peek, bind, Except.bind, beq_self_eq_true, if_true, hnt.valid, Bool.not_true, Bool.false_eq_true,
+      if_false, hnt.strip, hbr, hint, hint', hkey, hany, pure, Except.pure, e1, e2]
+  | some x =>
+    obtain ⟨l, r, nm⟩ := x
+    simp only [hs, Bool.and_eq_true] at hk
+    have hk' := splitKey_sound k l r nm hs
+    have hnt := nameTok_sound _ _ hk.2
+    have hb := brackets_part l r (nm :: "=" :: v :: "," :: "parameter" :: more) hk.1.1 hk.1.2
+    have hkey : s!"[{l}:{r}] " ++ nm = k := hk'.symm
+    have hint : (k == "integer") = false := by rw [hk']; exact keyRanged_ne_integer l r nm
+    simp only [List.cons_append, List.nil_append]
+    conv => lhs; unfold headerParamsGo
+    simp only [expect, peek, bind, Except.bind, beq_self_eq_true, if_true, hb, pure, Except.pure, next, hnt.valid, Bool.not_true,
+      Bool.false_eq_true, if_false, hnt.strip, hkey, hint, hany, e1, e2]
 
 theorem headerParamsGo_toks : ∀ (ps acc : Params) (f : Nat) (rest : Toks), ps ≠ [] → ps.length ≤ f →
-    (∀ kv ∈ ps, nameTokB kv.1 kv.1 = true ∧ kv.1 ≠ "integer") → ((acc ++ ps).map (·.1)).Nodup →
+    (∀ kv ∈ ps, mkeyOK kv.1 = true) → ((acc ++ ps).map (·.1)).Nodup →
     headerParamsGo f (mpToks ps ++ ")" :: rest) acc = .ok (acc ++ ps, rest) := by
   intro ps
   induction ps with
@@ -44,8 +177,7 @@ theorem headerParamsGo_toks : ∀ (ps acc : Params) (f : Nat) (rest : Toks), ps 
     cases f with
     | zero => simp at hf
     | succ f =>
-      obtain ⟨hk1, hk2⟩ := hok kv List.mem_cons_self
-      have hnt := nameTok_sound _ _ hk1
+      have hk := hok kv List.mem_cons_self
       have hany : acc.any (fun x => x.1 == kv.1) = false := by
         rw [List.any_eq_false]
         intro x hx
@@ -54,30 +186,20 @@ theorem headerParamsGo_toks : ∀ (ps acc : Params) (f : Nat) (rest : Toks), ps 
         rw [List.map_append, List.map_cons, List.nodup_append] at hn
         exact hn.2.2 x.1 (List.mem_map_of_mem hx) kv.1 List.mem_cons_self e
       obtain ⟨k, v⟩ := kv
-      have hbr : (k == "[") = false := hnt.res "[" (by decide)
-      have hkey : "" ++ k = k := String.empty_append
-      have hint' : (k == "integer") = false := by simpa using hk2
-      have hint : (("" ++ k) == "integer") = false := by rw [hkey]; exact hint'
       cases ps with
       | nil =>
-        simp only [mpToks, List.cons_append, List.nil_append]
-        unfold headerParamsGo
-        simp [expect, next, peek, bind, Except.bind, hnt.valid, hnt.strip, hbr, hint, hint', hkey, hany, pure, Except.pure]
+        simp only [mpToks, List.append_assoc, List.cons_append, List.nil_append]
+        exact hp_last k v acc f rest hk hany
       | cons kv2 ps2 =>
         have hrec := ih (acc ++ [(k, v)]) f rest (by simp) (by simpa using hf)
           (fun x hx => hok x (List.mem_cons_of_mem _ hx)) (by simpa using hn)
-        simp only [mpToks, List.cons_append, List.nil_append, List.append_assoc]
-        unfold headerParamsGo
-        have e1 : ("," == ")") = false := by decide
-        have e2 : ("=" != "=") = false := by decide
-        simp only [expect, next, peek, bind, Except.bind, beq_self_eq_true, if_true, hnt.valid, Bool.not_true, Bool.false_eq_true,
-          if_false, hnt.strip, hbr, hint, hint', hkey, hany, pure, Except.pure, e1, e2]
-        rw [hrec]
+        simp only [mpToks, List.append_assoc, List.cons_append, List.nil_append]
+        rw [hp_more k v acc f _ hk hany, hrec]
         simp
 
 theorem headerParams_toks (ps : Params) (rest : Toks) (hne : ps ≠ []) (hok : mparamsOK ps = true) :
     headerParams (mparamToks ps ++ rest) = .ok (ps, rest) := by
-  simp only [mparamsOK, Bool.and_eq_true, List.all_eq_true, decide_eq_true_eq, bne_iff_ne, ne_eq] at hok
+  simp only [mparamsOK, Bool.and_eq_true, List.all_eq_true, decide_eq_true_eq] at hok
   have hem : ps.isEmpty = false := by cases ps <;> simp at hne ⊢
   have hgo := headerParamsGo_toks ps [] ((mpToks ps ++ ([")"] ++ rest)).length + 1) rest hne (by
     have := mpToks_len ps
